@@ -31,6 +31,14 @@ type c10Case struct {
 	// Legacy: number of files of the old naming scheme (<end>-<start>.<trace id>.partial) lying in the directory;
 	// the listing skips them (and cleans up to 100 of them per call)
 	Legacy int `json:"legacy,omitempty"`
+	// Rolling: one partial store object saved at successive boundaries and rolled over after each save (what a segment
+	// job does with its output store); Len = segment length, Write = whether the segment writes a key
+	Rolling []c10Roll `json:"rolling,omitempty"`
+}
+
+type c10Roll struct {
+	Len   uint64 `json:"len"`
+	Write bool   `json:"write"`
 }
 
 func genKey(t *rapid.T) string {
@@ -96,6 +104,12 @@ func genC10(t *rapid.T) c10Case {
 		c.Legacy = rapid.IntRange(1, 5).Draw(t, "legacyfew")
 	case 2:
 		c.Legacy = rapid.IntRange(95, 140).Draw(t, "legacymany")
+	}
+	if c.Initial < 1_000_000 {
+		nr := rapid.IntRange(0, 4).Draw(t, "nrolling")
+		for i := 0; i < nr; i++ {
+			c.Rolling = append(c.Rolling, c10Roll{Len: rapid.SampledFrom([]uint64{1, 10, 10, 1000}).Draw(t, "rolllen"), Write: rapid.IntRange(0, 2).Draw(t, "rollwrite") > 0})
+		}
 	}
 	c.Below = []uint64{0, c.Initial, c.Initial + 1, max, max + 1}
 	for _, s := range c.Snaps {
@@ -295,6 +309,70 @@ func checkC10(c c10Case) *ev.Failure {
 			return ev.Failf("names/missing", "ListSnapshotFiles(%d) misses saved snapshots ending at or below it: %v", below, missing)
 		}
 	}
+
+	// C. one partial store saved at successive boundaries and rolled over in between: every snapshot is named after
+	// its own segment and holds that segment's writes
+	if len(c.Rolling) > 0 {
+		e3 := newEnv(kind, c.Initial)
+		defer e3.close()
+		at := c.Initial + 3
+		p := e3.cfg.NewPartialKV(at, nop)
+		type seg struct {
+			start, end uint64
+			want       map[string][]byte
+		}
+		var segs []seg
+		for i, r := range c.Rolling {
+			want := map[string][]byte{}
+			if r.Write {
+				k := fmt.Sprintf("roll%d", i)
+				if _, err := execBlock(p, kind, at, []sdsl.Op{{Ord: 1, Key: sdsl.Bin(k), Val: sdsl.Bin(k + "v")}}); err != nil {
+					return ev.Failf("exec-error", "rolling partial: %v", err)
+				}
+				p.Reset()
+				want[k] = []byte(k + "v")
+			}
+			end := at + r.Len
+			file, w, err := p.Save(end)
+			if err != nil {
+				return ev.Failf("rolling/save-error", "%v", err)
+			}
+			if err := w.Write(ctx); err != nil {
+				return ev.Failf("rolling/save-error", "%v", err)
+			}
+			if !file.Partial || file.Range.StartBlock != at || file.Range.ExclusiveEndBlock != end {
+				return ev.Failf("rolling/fileinfo", "segment %d of a rolled partial store: Save(%d) returned %s partial=%v (%s), want [%d,%d)", i, end, file.Range, file.Partial, file.Filename, at, end)
+			}
+			segs = append(segs, seg{at, end, want})
+			p.Roll(end)
+			if p.InitialBlock() != end {
+				return ev.Failf("rolling/initial-block", "after Roll(%d) the partial store starts at %d", end, p.InitialBlock())
+			}
+			at = end
+		}
+		files, err := e3.cfg.ListSnapshotFiles(ctx, at)
+		if err != nil {
+			return ev.Failf("rolling/list-error", "%v", err)
+		}
+		for _, sg := range segs {
+			var found *store.FileInfo
+			for _, f := range files {
+				if f.Partial && f.Range.StartBlock == sg.start && f.Range.ExclusiveEndBlock == sg.end {
+					found = f
+				}
+			}
+			if found == nil {
+				return ev.Failf("rolling/missing", "the snapshot [%d,%d) of a rolled partial store is not listed", sg.start, sg.end)
+			}
+			back := e3.cfg.NewPartialKV(sg.start, nop)
+			if err := back.Load(ctx, found); err != nil {
+				return ev.Failf("rolling/load-error", "%v", err)
+			}
+			if f := kvEq("rolling-save-load", sg.want, sdsl.Snapshot(back)); f != nil {
+				return f
+			}
+		}
+	}
 	return nil
 }
 
@@ -323,7 +401,7 @@ func classifyC10(c c10Case) (bool, []string) {
 }
 
 func TestC10(t *testing.T) {
-	ev.Get("C10", "Snapshots").Rule = "rapid: content of 0..12 (1 in 30: hundreds to thousands) entries built through real set operations (keys arbitrary valid UTF-8 incl. control/multi-byte characters, values binary incl. empty and large), delete prefixes for partials; Save->write->Load into a fresh store, into the store object that saved it and a second time into the same object, each compared bytewise with size and prefix list; sets of 0..12 full/partial snapshots with ranges up to 10 digits saved through Save and listed with ListSnapshotFiles(below) for below around every boundary: every saved snapshot ending <= below is returned with its range and kind and nothing unsaved is returned; non-trivial = an empty value and a non-ASCII/control key, or >=3 snapshots of both kinds"
+	ev.Get("C10", "Snapshots").Rule = "rapid: content of 0..12 (1 in 30: hundreds to thousands) entries built through real set operations (keys arbitrary valid UTF-8 incl. control/multi-byte characters, values binary incl. empty and large), delete prefixes for partials; Save->write->Load into a fresh store, into the store object that saved it and a second time into the same object, each compared bytewise with size and prefix list; sets of 0..12 full/partial snapshots with ranges up to 10 digits saved through Save and listed with ListSnapshotFiles(below) for below around every boundary: every saved snapshot ending <= below is returned with its range and kind and nothing unsaved is returned; one partial store object saved at 0..4 successive boundaries and rolled over after each (segments with and without writes): every snapshot named after its own segment, listed, and holding that segment's writes only; non-trivial = an empty value and a non-ASCII/control key, or >=3 snapshots of both kinds"
 	ev.Prop(t, "C10", "Snapshots", genC10, checkC10, classifyC10)
 }
 
